@@ -122,9 +122,15 @@ def obligations(ctx: Ctx, names: list[str], extra_modules: list[str] = ()) -> co
     bad_logics = {lg for lg, _ in failed}
     mods = [f'Ptx.Gen.Obl_{lg}' for lg in logics if lg not in bad_logics]
     ok_thms = [t for t in thms if t.split('.')[3] not in bad_logics]
-    if extra_modules and not any(f.startswith('Ptx/Props') or f.startswith('Ptx/Proofs') for f, _ in failed):
-        mods += list(extra_modules)
-        ok_thms += extra_thms
+    # an extra module is audited only if nothing it (transitively) imports failed to build
+    failed_mods = {f[:-5].replace('/', '.') for f, _, _ in res.errors if f.endswith('.lean')}
+    for m in extra_modules:
+        clo = set(module_closure([m]))
+        if clo & failed_mods:
+            ctx.notes.append(f'{m} not audited: it depends on modules that no longer build ({sorted(clo & failed_mods)[:4]})')
+            continue
+        mods.append(m)
+        ok_thms += common.theorem_names(m)
     # every module whose source could hide a sorry/axiom
     hits = scan_forbidden(module_closure(list(extra_modules) + ['Ptx.Props.C01', 'Ptx.Sem.Spec', 'Ptx.Sem.Sem']))
     for h in hits:
